@@ -7,6 +7,7 @@ import Driver.C15
 import Driver.C01
 import Driver.C02
 import Driver.C16
+import Driver.C13
 open Lean Driver
 
 def handlers : List (String × Handler) := [
@@ -17,7 +18,8 @@ def handlers : List (String × Handler) := [
   ("C15", Driver.C15.handle),
   ("C01", Driver.C01.handle),
   ("C02", Driver.C02.handle),
-  ("C16", Driver.C16.handle)
+  ("C16", Driver.C16.handle),
+  ("C13", Driver.C13.handle)
 ]
 
 def processLine (line : String) : String :=
